@@ -42,16 +42,21 @@ Definition isa_shows (img : list Z) (inp : list Z) (n : nat) (b : behaviour) : P
      - compile is the MODEL (XCodegenProgram.model_compile), not the C++ program; its input is the program as the
        code generator reads it (the output of XConstProp.front; that front preserves XSem's behaviour is C07's
        subject and is not proved for whole programs);
-     - the frame numbers (size, usable slots, outgoing words per procedure) are a parameter `frames` (xcmp computes
-       them itself; tools/c01.py reads them off its listing): the theorem holds for every choice that passes the
-       validation;
-     - the program is in the FRAGMENT -- global val/var declarations only (no arrays); procedures and functions with
-       value formals and var locals that hide no global; the statements and expressions of (4)..(4d); constants that
-       fit an immediate operand (no constant pool) -- otherwise model_compile returns None;
+     - the frame numbers (size, usable slots, outgoing words per procedure) and the order of the constant pool are a
+       parameter `prm : params` (xcmp computes them itself; tools/c01.py reads them off its listing): the theorem
+       holds for every choice that passes the validation;
+     - the program is in the FRAGMENT -- global val, var and array declarations (array lengths literal); procedures and
+       functions with value and array formals and var locals that hide no global; the statements and expressions of
+       (4)..(4d), including reads a[e] and assignments a[e1] := e2 of global arrays and of array formals, and array
+       names (global arrays, array formals) as actuals of array formals (passed by address); constants that do not fit an immediate
+       operand must be listed in the pool parameter -- otherwise model_compile returns None;
      - model_compile's built-in VALIDATION succeeded (it returns None otherwise): the ISA's decoder reads the stub
        and every procedure's code at the layout's label positions, the loaded words hold those bytes, the stack
-       pointer word and data words are in place, frame numbers are consistent, and the stack has room for XSem's
-       depth bound (image words + 2000 * largest frame <= 199997);
+       pointer word and data words are in place (the word of an array's name holds the address of its cells, which
+       lie between the root frame and the top of memory, apart from each other; XSem's initial state has the
+       variables unassigned and the arrays empty with those lengths, and no array bears the name of a global constant
+       or variable), frame numbers are consistent, and the stack has
+       room for XSem's depth bound (image words + 2000 * largest frame <= initial stack pointer);
      - the code is the LOWERED code, before the three peephole rewrites (opt = false); xcmp's binary has them applied
        (opt = true reproduces its bytes: see the ties). *)
 Definition C01_full (compile : program -> option (list Z)) : Prop :=
@@ -82,7 +87,12 @@ Print Assumptions C01_run_deterministic.
    frame temporaries), = and < (with xcmp's special cases for a literal zero, under XSem's "no comparison-difference
    overflow" -- XSem answers CmpDiffOverflow otherwise, so there is no evaluation to speak of), ~, and / or (short
    circuit) -- with the generated labels and BRZ/BRN/BR as the assembler receives them.
-   `cg venv pool size nslots e RA n off` is the model of ExprCodeGen / genBinopOperands / genConst / genVar and of
+   and subscripts a[e] of arrays in scope (aenv: the word that holds the address of the cells; a constant subscript
+   is the operand of LDAI, otherwise index + base, then LDAI 0; XSem fails outside the bounds and on an element that
+   was never assigned, so nothing is claimed then; arrays_ok: the name denotes a global array g of the state
+   (XCodegenExpr.resolves: a global array no local name hides, or an array formal bound to g), the word of the name
+   holds the address of g's cells, which are in memory outside the temporaries and hold the assigned elements).
+   `cg venv pool size nslots aenv e RA n off` is the model of ExprCodeGen / genBinopOperands / genConst / genVar and of
    the lowering of frame-base relative operands; tools/c01.py ties it to the real xcmp by comparing the extracted
    cg with the real compiler's listing on generated expressions.
    If the X spec evaluates e to z in a state whose variables the memory mr holds (vars_ok), the generated code,
@@ -93,10 +103,10 @@ Print Assumptions C01_run_deterministic.
    Hypotheses on the layout: mem[1] = sp; the temporaries (frame offsets off0 .. nslots-1, i.e. words
    sp+size-nslots .. sp+size-1-off0) lie inside memory, are not protected, are not word 1, and no variable lives
    in them; pool entries are protected words holding their constant.
-   Missing for C01_full at the expression level: calls, system calls, subscripts and strings. *)
+   Missing for C01_full at the expression level: calls, system calls, strings. *)
 Theorem C01_expr_fragment_partial :
-  forall (venv : string -> option loc) (pool : Z -> option Z) (size nslots : Z) (ge : genv) (P : Z -> Prop)
-         (m0 : WMap.t) (lab : label -> Z) (sp off0 : Z) (mr : WMap.t),
+  forall (venv : string -> option loc) (pool : Z -> option Z) (size nslots : Z) (aenv : string -> option loc) (ge : genv)
+         (P : Z -> Prop) (m0 : WMap.t) (lab : label -> Z) (sp off0 : Z) (mr : WMap.t),
     C P m0 mr ->
     rd mr 1 = sp ->
     0 <= tlo size nslots sp /\ fb size sp - off0 < MEMW ->
@@ -105,11 +115,13 @@ Theorem C01_expr_fragment_partial :
     (forall v a, pool v = Some a -> P a /\ in_mem a = true /\ rd m0 a = v mod W) ->
     (forall x a, venv x = Some (LGlobal a) -> in_mem a = true /\ ~ T size nslots sp off0 a) ->
     (forall x k, venv x = Some (LFrame k) -> in_mem (sp + k) = true /\ ~ T size nslots sp off0 (sp + k)) ->
+    (forall a l, aenv a = Some l -> in_mem (waddr sp l) = true /\ ~ T size nslots sp off0 (waddr sp l)) ->
     forall (e : expr) (n : label) (off : Z) (code : list instr) (n' : label),
-    cg venv pool size nslots e RA n off = Some (code, n') -> off0 <= off ->
+    cg venv pool size nslots aenv e RA n off = Some (code, n') -> off0 <= off ->
     forall (f : nat) (st : state) (z : Z) (s : state),
     eval f ge e st = Ret (Vint z) s ->
     vars_ok venv ge sp mr st ->
+    arrays_ok size nslots aenv sp off0 mr st ->
     forall (pos nxt a b : Z) (inp : inputs),
     code_at (C P m0) lab pos code nxt -> 0 <= pos -> nxt < W ->
     exists (k : nat) (s' : arch),
@@ -121,7 +133,13 @@ Print Assumptions C01_expr_fragment_partial.
 (* (4b) PARTIAL (the part of Layer C that is proved for statements).  Input: a statement in the form the code
    generator reads it (after XConstProp.front).  Fragment: skip, stop, return e, if (xcmp's three shapes for skip
    branches), while, sequences, assignment to a global / local / value formal, the system calls exit `0(e)` and
-   put `1(e, s)` as statements, over the expressions of (4); and, as the WHOLE right-hand side of an assignment or
+   put `1(e, s)` as statements, over the expressions of (4); assignment to an element a[i] := e of an array in
+   scope (index; base; ADD; the address saved in the first temporary; the value; the address reloaded; STAI 0 --
+   garr g: g is a global array the theorem tracks; cell_of: its cells abase g .. abase g + alen_of g - 1 are ordinary
+   memory apart from everything else; Rel says that every array name in scope (aenv: a global array under its own
+   name, or an array formal) denotes such a g in XSem's state and that its word holds abase g, and that every
+   assigned element of every such g is in its cell); and, as the WHOLE
+   right-hand side of an assignment or
    the whole value of a return, a call f(e1..en) of a function with call-free actuals (cgx; see (4c)).  `cs` models StmtCodeGen and genSysCall (call-free
    actuals) as handed to OptimiseDirectives, i.e. BEFORE its three peephole rewrites (tools/c01.py ties
    prologue ++ cs body ++ epilogue, with the peepholes applied by the executable `peephole`, to `xcmp -S`).
@@ -140,10 +158,10 @@ Print Assumptions C01_expr_fragment_partial.
    disjoint from each other and from the variables; distinct variables have distinct words; sp+2 usable by `stop`.
    Missing for C01_full: calls inside operands of an operator or as actuals (procedure-call statements and function
    calls as a whole right-hand side: see (4c), (4d)),
-   get, arrays and strings, the peephole pass, and the layout of whole programs. *)
+   get, local arrays and strings, the peephole pass, and the layout of whole programs. *)
 Theorem C01_stmt_fragment_partial :
-  forall (venv : string -> option loc) (pool : Z -> option Z) (size nslots off0 og : Z) (exitl : label) (ge : genv)
-         (P : Z -> Prop) (m0 : WMap.t) (lab : label -> Z) (sp : Z),
+  forall (venv aenv : string -> option loc) (garr : string -> bool) (abase alen_of : string -> Z) (pool : Z -> option Z) (size nslots off0 og : Z)
+         (exitl : label) (ge : genv) (P : Z -> Prop) (m0 : WMap.t) (lab : label -> Z) (sp : Z),
     0 <= tlo size nslots sp /\ fb size sp - off0 < MEMW ->
     (forall a, T size nslots sp off0 a -> ~ P a) ->
     ~ T size nslots sp off0 1 ->
@@ -153,22 +171,30 @@ Theorem C01_stmt_fragment_partial :
     (forall x l, venv x = Some l ->
        in_mem (addr_of sp l) = true /\ ~ scratch no_free size nslots off0 og sp (addr_of sp l) /\ ~ P (addr_of sp l) /\ addr_of sp l <> 1) ->
     (forall x y lx ly, venv x = Some lx -> venv y = Some ly -> x <> y -> addr_of sp lx <> addr_of sp ly) ->
-    forall f, stmt_ok no_procs no_free any_depth venv pool size nslots off0 og exitl ge P m0 lab sp f.
+    (forall a l, aenv a = Some l ->
+       in_mem (waddr sp l) = true /\ ~ scratch no_free size nslots off0 og sp (waddr sp l) /\ ~ P (waddr sp l) /\ waddr sp l <> 1 /\
+       ~ cell_of garr abase alen_of (waddr sp l) /\ (forall x lx, venv x = Some lx -> addr_of sp lx <> waddr sp l)) ->
+    (forall c, cell_of garr abase alen_of c ->
+       in_mem c = true /\ ~ scratch no_free size nslots off0 og sp c /\ ~ P c /\ c <> 1 /\ (forall x lx, venv x = Some lx -> addr_of sp lx <> c)) ->
+    (forall g g' i i', garr g = true -> garr g' = true -> 0 <= i < alen_of g -> 0 <= i' < alen_of g' ->
+       abase g + i = abase g' + i' -> g = g' /\ i = i') ->
+    forall f, stmt_ok no_procs no_free any_depth venv aenv garr abase alen_of pool size nslots off0 og exitl ge P m0 lab sp f.
 Proof. exact stmt_correct. Qed.
 Print Assumptions C01_stmt_fragment_partial.
 
 (* what stmt_ok says, spelled out for a statement that terminates normally (for any table of callable procedures
    pinfo, free-stack region Fr and call-depth invariant Dq) *)
 Theorem C01_stmt_normal_partial :
-  forall pinfo Fr Dq venv pool size nslots off0 og exitl ge P m0 lab sp f,
-    stmt_ok pinfo Fr Dq venv pool size nslots off0 og exitl ge P m0 lab sp f ->
-    forall s n code n' st st', cs pinfo venv pool size nslots off0 og exitl s n = Some (code, n') ->
+  forall pinfo Fr Dq venv aenv garr abase alen_of pool size nslots off0 og exitl ge P m0 lab sp f,
+    stmt_ok pinfo Fr Dq venv aenv garr abase alen_of pool size nslots off0 og exitl ge P m0 lab sp f ->
+    forall s n code n' st st', cs pinfo venv pool size nslots aenv off0 og exitl s n = Some (code, n') ->
     exec f ge s st = Ret Normal st' ->
-    forall m pos nxt a b inp, Rel pinfo Dq venv ge P m0 sp st m -> code_at (C P m0) lab pos code nxt ->
+    forall m pos nxt a b inp, Rel pinfo Dq venv aenv garr abase alen_of ge P m0 sp st m -> code_at (C P m0) lab pos code nxt ->
     0 <= pos -> nxt < W -> 0 <= lab exitl < W ->
     exists outs a' b' m',
       runs inp (mk pos a b 0 m) (map wr_ev outs) inp (mk nxt a' b' 0 m') /\
-      Rel pinfo Dq venv ge P m0 sp st' m' /\ post st st' outs /\ frame_only Fr venv size nslots off0 og sp m m'.
+      Rel pinfo Dq venv aenv garr abase alen_of ge P m0 sp st' m' /\ post st st' outs /\
+      frame_only Fr venv garr abase alen_of size nslots off0 og sp m m'.
 Proof. exact stmt_normal. Qed.
 Print Assumptions C01_stmt_normal_partial.
 
@@ -182,11 +208,14 @@ Print Assumptions C01_stmt_normal_partial.
    the fuel).  Functions: `x := f(e1..en)` and `return f(e1..en)` (genFuncCall: the actuals go to sp+2.., branch and
    link, then LDAM 1; LDAI 1 reads the result from the outgoing word sp+1); call_spec for a function additionally
    says that XSem's result is an integer z and that word sp+1 holds z mod 2^32 at the return.
+   An actual that is the name of an array in scope (aenv) is passed by address: its word is loaded (LDAM w for a
+   global array, LDAM 1; LDAI k for an array formal) and stored to the outgoing word; args_stored / arg_ok: the
+   outgoing word of an actual holds z mod 2^32 for an integer z, abase g for a global array g.
    That every simple procedure and function meets call_spec is (4d).  Missing: calls inside operands / actuals. *)
 Theorem C01_stmt_calls_partial :
   forall (pinfo : string -> option pframe) (Fr : Z -> Prop) (Dq : nat -> Prop)
-         (venv : string -> option loc) (pool : Z -> option Z) (size nslots off0 og : Z) (exitl : label) (ge : genv)
-         (P : Z -> Prop) (m0 : WMap.t) (lab : label -> Z) (sp : Z),
+         (venv aenv : string -> option loc) (garr : string -> bool) (abase alen_of : string -> Z) (pool : Z -> option Z) (size nslots off0 og : Z)
+         (exitl : label) (ge : genv) (P : Z -> Prop) (m0 : WMap.t) (lab : label -> Z) (sp : Z),
     0 <= tlo size nslots sp /\ fb size sp - off0 < MEMW ->
     (forall a, T size nslots sp off0 a -> ~ P a) ->
     ~ T size nslots sp off0 1 ->
@@ -197,22 +226,33 @@ Theorem C01_stmt_calls_partial :
     (forall x l, venv x = Some l ->
        in_mem (addr_of sp l) = true /\ ~ scratch Fr size nslots off0 og sp (addr_of sp l) /\ ~ P (addr_of sp l) /\ addr_of sp l <> 1) ->
     (forall x y lx ly, venv x = Some lx -> venv y = Some ly -> x <> y -> addr_of sp lx <> addr_of sp ly) ->
+    (forall a l, aenv a = Some l ->
+       in_mem (waddr sp l) = true /\ ~ scratch Fr size nslots off0 og sp (waddr sp l) /\ ~ P (waddr sp l) /\ waddr sp l <> 1 /\
+       ~ cell_of garr abase alen_of (waddr sp l) /\ (forall x lx, venv x = Some lx -> addr_of sp lx <> waddr sp l)) ->
+    (forall c, cell_of garr abase alen_of c ->
+       in_mem c = true /\ ~ scratch Fr size nslots off0 og sp c /\ ~ P c /\ c <> 1 /\ (forall x lx, venv x = Some lx -> addr_of sp lx <> c)) ->
+    (forall g g' i i', garr g = true -> garr g' = true -> 0 <= i < alen_of g -> 0 <= i' < alen_of g' ->
+       abase g + i = abase g' + i' -> g = g' /\ i = i') ->
     (forall p pi, pinfo p = Some pi -> 0 <= lab (pf_entry pi) < W) ->
     (forall p pi, pinfo p = Some pi -> assoc p (g_vals ge) = None) ->
-    forall f, (forall f', (f' < f)%nat -> call_spec pinfo Fr Dq venv size nslots off0 og ge P m0 lab sp f') ->
-    stmt_ok pinfo Fr Dq venv pool size nslots off0 og exitl ge P m0 lab sp f.
+    forall f, (forall f', (f' < f)%nat -> call_spec pinfo Fr Dq venv aenv garr abase alen_of size nslots off0 og ge P m0 lab sp f') ->
+    stmt_ok pinfo Fr Dq venv aenv garr abase alen_of pool size nslots off0 og exitl ge P m0 lab sp f.
 Proof. exact stmt_correct_calls. Qed.
 Print Assumptions C01_stmt_calls_partial.
 
 (* (4d) PARTIAL: the program-level induction -- procedures and functions meet the call specification, so (4c)
    holds unconditionally for bodies with procedure-call statements and function calls as right-hand sides,
    recursion included.
-   Setting.  pinfo is the table of callable procedures and functions.  Each is `simple`: value
+   Setting.  pinfo is the table of callable procedures and functions.  Each is `simple`: value and array
    formals fn and var locals ln only, names pairwise distinct, none of them the name of a global variable (no
-   shadowing of globals; tools/c01.py's generator does produce shadowing, it is outside this theorem).  Its code
+   shadowing of globals; tools/c01.py's generator does produce shadowing, it is outside this theorem) or of a global
+   array.  Global arrays (aaddr: the data word of the name; abase, alen_of: its cells) are visible in every frame:
+   the word of the name lies with the globals below stack_lo, the cells in [stack_hi, 200000) above the stack, the
+   cells of different arrays apart; frames lie in [stack_lo, stack_hi).  Its code
    at its entry label is  pro size ++ cs body ++ epi_of is_func exitl size  -- xcmp's prologue (LDBM 1; STAI 0;
    LDAC -size; ADD; STAM 1), the body as `cs` generates it in the frame environment frame_venv (local j at
-   sp+size-1-j, formal i at sp+size+1+i -- sp+size+2+i in a function --, globals at their DATA words), the exit label
+   sp+size-1-j, formal i at sp+size+1+i -- sp+size+2+i in a function; for an array formal that word holds the
+   address of the cells of the array it is bound to (frame_aenv) --, globals at their DATA words), the exit label
    and the epilogue (LDBM 1; [function: STAI size+1, the result to the caller's outgoing word 1;] LDAC size; ADD;
    STAM 1; LDBI size; BRB); this is the model's lowered procedure (C01_cproc_lowered_shape), BEFORE the peepholes.
    Frame numbers: 0 <= size <= maxframe, locals <= nslots, nslots + og <= size (size 0: a leaf procedure without
@@ -230,22 +270,22 @@ Print Assumptions C01_stmt_calls_partial.
    such a frame (control at the callee's entry label, link address in areg, actuals in the outgoing words) returns
    to the link address with the caller's relation restored for the state XSem's `invoke` yields
    (C01_call_ok_partial).  Proof: strong induction on the fuel, alternating the two statements; the callee's
-   relation is built from XSem.enter (locals undefined, formals = actuals), the caller's is rebuilt from the
-   callee's frame_only.
+   relation is built from XSem.enter (locals undefined, formals = actuals; an array formal is bound to the global
+   array the actual denotes, XSem refuses anything else), the caller's is rebuilt from the callee's frame_only.
    Missing for C01_full: calls inside operands and actuals (needs a commutation theorem for XSem's operand
-   evaluation order), array/proc formals, shadowing of globals, the peephole pass, get, arrays,
-   strings, the entry stub and the whole-program layout (that DATA/stack/code are placed so that the layout
-   hypotheses hold is checked per program by tools/c08.py's monitor, not proved). *)
+   evaluation order), proc/func formals and local arrays (XSem itself rejects local arrays), string literals as
+   array actuals, shadowing of globals, the peephole pass for whole
+   images, get, strings. *)
 Theorem C01_calls_partial :
-  forall (ge : genv) (gaddr : string -> option Z) (pool : Z -> option Z) (P : Z -> Prop) (m0 : WMap.t)
-         (lab : label -> Z) (pinfo : string -> option pframe) (stack_lo maxframe : Z),
+  forall (ge : genv) (gaddr aaddr : string -> option Z) (abase alen_of : string -> Z) (pool : Z -> option Z) (P : Z -> Prop)
+         (m0 : WMap.t) (lab : label -> Z) (pinfo : string -> option pframe) (stack_lo stack_hi maxframe : Z),
     (forall p pi, pinfo p = Some pi ->
        0 <= lab (pf_entry pi) /\
        exists pr fn ln L bc n' endp,
-         find_proc p (g_procs ge) = Some pr /\ pf_isfunc pi = is_func pr /\ simple_proc gaddr pr fn ln /\
+         find_proc p (g_procs ge) = Some pr /\ pf_isfunc pi = is_func pr /\ simple_proc gaddr aaddr pr fn ln /\
          numbers_ok maxframe pr L /\
-         cs pinfo (frame_venv gaddr pr (pl_size L)) pool (pl_size L) (pl_nslots L) (first_temp pr) (pl_og L) (pl_exit L)
-            (body pr) (pl_n0 L) = Some (bc, n') /\
+         cs pinfo (frame_venv gaddr pr (pl_size L)) pool (pl_size L) (pl_nslots L) (frame_aenv aaddr pr (pl_size L)) (first_temp pr) (pl_og L)
+            (pl_exit L) (body pr) (pl_n0 L) = Some (bc, n') /\
          code_at (C P m0) lab (lab (pf_entry pi)) (pro (pl_size L) ++ bc ++ epi_of (is_func pr) (pl_exit L) (pl_size L)) endp /\ endp < W) ->
     (forall x a, gaddr x = Some a -> in_mem a = true /\ ~ P a /\ a <> 1 /\ a < stack_lo /\ assoc x (g_vals ge) = None) ->
     (forall x y a b, gaddr x = Some a -> gaddr y = Some b -> x <> y -> a <> b) ->
@@ -254,22 +294,28 @@ Theorem C01_calls_partial :
     (forall v a, pool v = Some a -> P a /\ in_mem a = true /\ rd m0 a = v mod W) ->
     (forall p pi, pinfo p = Some pi -> assoc p (g_vals ge) = None) ->
     0 <= maxframe ->
-    forall f pr fn ln L sp, frame_ok gaddr stack_lo maxframe pr fn ln L sp ->
-      stmt_ok pinfo (Fr_of stack_lo sp) (Dq_of ge stack_lo maxframe sp) (frame_venv gaddr pr (pl_size L)) pool
-              (pl_size L) (pl_nslots L) (first_temp pr) (pl_og L) (pl_exit L) ge P m0 lab sp f.
+    stack_hi <= MEMW ->
+    (forall a w, aaddr a = Some w ->
+       in_mem w = true /\ ~ P w /\ w <> 1 /\ w < stack_lo /\ (forall x g, gaddr x = Some g -> g <> w) /\
+       forall i, 0 <= i < alen_of a -> stack_hi <= abase a + i < MEMW /\ ~ P (abase a + i)) ->
+    (forall a w a' w' i i', aaddr a = Some w -> aaddr a' = Some w' -> 0 <= i < alen_of a -> 0 <= i' < alen_of a' ->
+       abase a + i = abase a' + i' -> a = a' /\ i = i') ->
+    forall f pr fn ln L sp, frame_ok gaddr aaddr stack_lo stack_hi maxframe pr fn ln L sp ->
+      stmt_ok pinfo (Fr_of stack_lo sp) (Dq_of ge stack_lo maxframe sp) (frame_venv gaddr pr (pl_size L)) (frame_aenv aaddr pr (pl_size L))
+              (garr_of aaddr) abase alen_of pool (pl_size L) (pl_nslots L) (first_temp pr) (pl_og L) (pl_exit L) ge P m0 lab sp f.
 Proof. exact stmt_calls_closed. Qed.
 Print Assumptions C01_calls_partial.
 
 Theorem C01_call_ok_partial :
-  forall (ge : genv) (gaddr : string -> option Z) (pool : Z -> option Z) (P : Z -> Prop) (m0 : WMap.t)
-         (lab : label -> Z) (pinfo : string -> option pframe) (stack_lo maxframe : Z),
+  forall (ge : genv) (gaddr aaddr : string -> option Z) (abase alen_of : string -> Z) (pool : Z -> option Z) (P : Z -> Prop)
+         (m0 : WMap.t) (lab : label -> Z) (pinfo : string -> option pframe) (stack_lo stack_hi maxframe : Z),
     (forall p pi, pinfo p = Some pi ->
        0 <= lab (pf_entry pi) /\
        exists pr fn ln L bc n' endp,
-         find_proc p (g_procs ge) = Some pr /\ pf_isfunc pi = is_func pr /\ simple_proc gaddr pr fn ln /\
+         find_proc p (g_procs ge) = Some pr /\ pf_isfunc pi = is_func pr /\ simple_proc gaddr aaddr pr fn ln /\
          numbers_ok maxframe pr L /\
-         cs pinfo (frame_venv gaddr pr (pl_size L)) pool (pl_size L) (pl_nslots L) (first_temp pr) (pl_og L) (pl_exit L)
-            (body pr) (pl_n0 L) = Some (bc, n') /\
+         cs pinfo (frame_venv gaddr pr (pl_size L)) pool (pl_size L) (pl_nslots L) (frame_aenv aaddr pr (pl_size L)) (first_temp pr) (pl_og L)
+            (pl_exit L) (body pr) (pl_n0 L) = Some (bc, n') /\
          code_at (C P m0) lab (lab (pf_entry pi)) (pro (pl_size L) ++ bc ++ epi_of (is_func pr) (pl_exit L) (pl_size L)) endp /\ endp < W) ->
     (forall x a, gaddr x = Some a -> in_mem a = true /\ ~ P a /\ a <> 1 /\ a < stack_lo /\ assoc x (g_vals ge) = None) ->
     (forall x y a b, gaddr x = Some a -> gaddr y = Some b -> x <> y -> a <> b) ->
@@ -278,63 +324,73 @@ Theorem C01_call_ok_partial :
     (forall v a, pool v = Some a -> P a /\ in_mem a = true /\ rd m0 a = v mod W) ->
     (forall p pi, pinfo p = Some pi -> assoc p (g_vals ge) = None) ->
     0 <= maxframe ->
-    forall f pr fn ln L sp, frame_ok gaddr stack_lo maxframe pr fn ln L sp ->
-      call_spec pinfo (Fr_of stack_lo sp) (Dq_of ge stack_lo maxframe sp) (frame_venv gaddr pr (pl_size L))
-                (pl_size L) (pl_nslots L) (first_temp pr) (pl_og L) ge P m0 lab sp f.
+    stack_hi <= MEMW ->
+    (forall a w, aaddr a = Some w ->
+       in_mem w = true /\ ~ P w /\ w <> 1 /\ w < stack_lo /\ (forall x g, gaddr x = Some g -> g <> w) /\
+       forall i, 0 <= i < alen_of a -> stack_hi <= abase a + i < MEMW /\ ~ P (abase a + i)) ->
+    (forall a w a' w' i i', aaddr a = Some w -> aaddr a' = Some w' -> 0 <= i < alen_of a -> 0 <= i' < alen_of a' ->
+       abase a + i = abase a' + i' -> a = a' /\ i = i') ->
+    forall f pr fn ln L sp, frame_ok gaddr aaddr stack_lo stack_hi maxframe pr fn ln L sp ->
+      call_spec pinfo (Fr_of stack_lo sp) (Dq_of ge stack_lo maxframe sp) (frame_venv gaddr pr (pl_size L)) (frame_aenv aaddr pr (pl_size L))
+                (garr_of aaddr) abase alen_of (pl_size L) (pl_nslots L) (first_temp pr) (pl_og L) ge P m0 lab sp f.
 Proof. exact call_ok. Qed.
 Print Assumptions C01_call_ok_partial.
 
 (* the code shape assumed in (4d) is the executable model's lowered procedure (exit label 0, body labels from 1,
    nslots = size), which tools/c01.py compares with `xcmp -S` after the model's peephole pass *)
-Theorem C01_cproc_lowered_shape : forall pinfo gaddr pool p size og code,
-  cproc_lowered pinfo gaddr pool p size og = Some code ->
-  exists bc n', cs pinfo (frame_venv gaddr p size) pool size size (first_temp p) og 0 (body p) 1 = Some (bc, n') /\
+Theorem C01_cproc_lowered_shape : forall pinfo gaddr aaddr pool p size og code,
+  cproc_lowered pinfo gaddr aaddr pool p size og = Some code ->
+  exists bc n', cs pinfo (frame_venv gaddr p size) pool size size (frame_aenv aaddr p size) (first_temp p) og 0 (body p) 1 = Some (bc, n') /\
                 code = pro size ++ bc ++ epi_of (is_func p) 0 size.
 Proof. exact cproc_lowered_simple. Qed.
 Print Assumptions C01_cproc_lowered_shape.
 
 (* (4e) NON-VACUITY of (4d): a program with a non-empty procedure table for which every hypothesis is discharged.
-   The program (coq/XCodegenDemo.v):  val put = 1; var g;
+   The program (coq/XCodegenDemo.v):  val put = 1; var g; array a[4];
        func fd(val k) is if k = 0 then return 7 else return fd(k - 1)
-       proc cd(val n) is var t; { t := n + 48; put(t, 0); g := g + n; if n = 0 then skip else cd(n - 1) }
-       proc main() is { g := 0; cd(3); g := fd(g) }
-   -- a recursive procedure with a value formal and a local, a recursive function used as `return f(..)` and as
-   `x := f(..)`, all called with call-free actuals.  XConstProp.front only
+       proc cd(val n, array b) is var t;
+         { t := n + 48; put(t, 0); g := g + n; b[n] := t; if n = 0 then skip else cd(n - 1, b) }
+       proc main() is { g := 0; cd(3, a); g := fd(g); g := g + a[2] }
+   -- a recursive procedure with a value formal, an array formal and a local that assigns elements of the global array
+   it was handed by address and passes it on, a recursive
+   function used as `return f(..)` and as `x := f(..)`, all called with call-free actuals, and a read of the array.  XConstProp.front only
    turns put(..) into the system call (C01_demo_front); XSem gives it the outputs "3210" (C01_demo_spec).
-   Its image is laid out as xcmp does (BR _start; DATA 199997; g; _start: LDAP _exit; BR main; _exit: ..; cd; main)
+   Its image is laid out as xcmp does (BR _start; DATA 199993; g; a's word = 199996; _start: LDAP _exit; BR main; ..)
    from the model's lowered code -- prologue ++ cs body ++ exit label ++ epilogue, BEFORE the peepholes, which is the
-   code (4d) speaks of -- by the assembler model AsmLayout.assemble_directives (C01_demo_assembled: 136 bytes).  The
+   code (4d) speaks of -- by the assembler model AsmLayout.assemble_directives (C01_demo_assembled: 172 bytes).  The
    ISA runs that image from reset to the spec's behaviour (C01_demo_image_runs, by computation).
    prog_hyps is the conjunction of the hypotheses of C01_calls_partial, word for word (C01_calls_of_hyps derives the
-   theorem from it); C01_calls_nonvacuous_hyps: it holds for the demo, with P = the code words 3..33, m0 = the loaded
-   image, lab = the label positions of the layout, stack_lo = 1000, maxframe = 5, depth bound 10.  The code_at
+   theorem from it); C01_calls_nonvacuous_hyps: it holds for the demo, with P = the code words 5..42, m0 = the loaded
+   image, lab = the label positions of the layout, stack_lo = 1000, stack_hi = 199996, maxframe = 6, depth bound 10.  The code_at
    hypotheses are established by running the ISA's own decoder over the image (XCodegenImage.code_chk_sound through
    C01_instr_at_of_decode).
-   C01_calls_nonvacuous_run: the theorem applied.  From main's frame (mem[1] = 199994, g unassigned) the ISA runs
-   the code of main's body `g := 0; cd(3); g := fd(g)` at bytes [112, 129) -- four nested activations of cd, each
-   with prologue, output, recursive call and epilogue, then seven of the function fd, each handing its result back
-   through the caller's outgoing word -- to the end of that code, emitting exactly Write 51, 50, 49, 48 on stream
-   0 and consuming no input; mem[1] is 199994 again and g's word holds 7 = fd(6).  Not by running the ISA: by
+   C01_calls_nonvacuous_run: the theorem applied.  From main's frame (mem[1] = 199989, g unassigned, a empty) the
+   ISA runs the code of main's body `g := 0; cd(3, a); g := fd(g); g := g + a[2]` at bytes [136, 165) -- four nested
+   activations of cd, each with prologue, output, an element assignment through the array formal, recursive call
+   handing the array on, and epilogue, then seven of
+   the function fd, each handing its result back through the caller's outgoing word, then the array read -- to the
+   end of that code, emitting exactly Write 51, 50, 49, 48 on stream 0 and consuming no input; mem[1] is 199989
+   again, g's word holds 57 = fd(6) + a[2] and the cell of a[2] (word 199998) holds 50.  Not by running the ISA: by
    C01_calls_partial from XSem's run of the statement.
    demo_cproc_cd / _main / _fd (XCodegenDemo.v): what the executable model (with its peephole pass) generates for
    the three; tools/c01.py (coq_demo_listing_tie) re-checks these instruction lists, as written in coq/XCodegenDemo.v,
    against `xcmp -S` of the real compiler on every run (identical up to label names). *)
-Theorem C01_calls_of_hyps : forall ge gaddr pool P m0 lab pinfo stack_lo maxframe,
-  prog_hyps ge gaddr pool P m0 lab pinfo stack_lo maxframe ->
-  forall f pr fn ln L sp, frame_ok gaddr stack_lo maxframe pr fn ln L sp ->
-    stmt_ok pinfo (Fr_of stack_lo sp) (Dq_of ge stack_lo maxframe sp) (frame_venv gaddr pr (pl_size L)) pool
-            (pl_size L) (pl_nslots L) (first_temp pr) (pl_og L) (pl_exit L) ge P m0 lab sp f.
+Theorem C01_calls_of_hyps : forall ge gaddr aaddr abase alen_of pool P m0 lab pinfo stack_lo stack_hi maxframe,
+  prog_hyps ge gaddr aaddr abase alen_of pool P m0 lab pinfo stack_lo stack_hi maxframe ->
+  forall f pr fn ln L sp, frame_ok gaddr aaddr stack_lo stack_hi maxframe pr fn ln L sp ->
+    stmt_ok pinfo (Fr_of stack_lo sp) (Dq_of ge stack_lo maxframe sp) (frame_venv gaddr pr (pl_size L)) (frame_aenv aaddr pr (pl_size L))
+            (garr_of aaddr) abase alen_of pool (pl_size L) (pl_nslots L) (first_temp pr) (pl_og L) (pl_exit L) ge P m0 lab sp f.
 Proof. exact stmt_calls_of_hyps. Qed.
 Print Assumptions C01_calls_of_hyps.
 
 Theorem C01_calls_nonvacuous_hyps :
-  prog_hyps demo_ge demo_gaddr demo_pool demo_P demo_m0 demo_lab demo_pinfo demo_stack_lo demo_maxframe.
+  prog_hyps demo_ge demo_gaddr demo_aaddr demo_abase demo_alen demo_pool demo_P demo_m0 demo_lab demo_pinfo demo_stack_lo demo_stack_hi demo_maxframe.
 Proof. exact demo_hyps. Qed.
 Print Assumptions C01_calls_nonvacuous_hyps.
 
 Theorem C01_calls_nonvacuous_run : forall a b inp, exists a' b' m',
-  runs inp (mk 112 a b 0 (wr demo_m0 1 199994)) [Write 51 0; Write 50 0; Write 49 0; Write 48 0] inp (mk 129 a' b' 0 m') /\
-  rd m' 1 = 199994 /\ rd m' 2 = 7.
+  runs inp (mk 136 a b 0 (wr demo_m0 1 199989)) [Write 51 0; Write 50 0; Write 49 0; Write 48 0] inp (mk 165 a' b' 0 m') /\
+  rd m' 1 = 199989 /\ rd m' 2 = 57 /\ rd m' 199998 = 50.
 Proof. exact demo_main_body_runs. Qed.
 Print Assumptions C01_calls_nonvacuous_run.
 
@@ -351,8 +407,10 @@ Example C01_demo_image_runs : isa_shows (words_of_bytes demo_bytes) [] 600
 Proof. vm_compute. repeat split. Qed.
 
 (* (4f) PARTIAL, the end-to-end statement: C01_full for the model compile function, for every choice of frame
-   numbers.  model_compile frames false p (XCodegenProgram.v) lays p out as xcmp does -- BR _start; DATA 199997;
-   one DATA 0 per global variable and per local variable; _start: LDAP _exit; BR main; _exit: LDBM 1; LDAC 0;
+   numbers.  model_compile prm false p (XCodegenProgram.v) lays p out as xcmp does -- BR _start; DATA <initial
+   stack pointer = 200000 - array cells - 3>; per global variable a DATA 0, per global array a DATA <address of its
+   cells> (the cells end at the top of memory, first declared highest); per procedure the pool constants first used in it and one DATA 0 per local
+   variable; _start: LDAP _exit; BR main; _exit: LDBM 1; LDAC 0;
    STAI 2; SVC; each procedure's prologue ++ cs body ++ exit label ++ epilogue at its entry label -- through the
    assembler model AsmLayout.assemble_directives, validates the result by computation and returns its words.
    Claim: if XSem.run p inp = Behaviour b (fuel 10^6, 2*10^6 statements, depth 2000) and model_compile returns an
@@ -364,11 +422,11 @@ Proof. vm_compute. repeat split. Qed.
    from the validation (the_hyps); the exit stub, or the program's own exit.
    See the comment at C01_full for exactly what this adds to the full statement.
    C01_program_nonvacuous: the theorem applied to the demo program of (4e) -- its validated image demo_image
-   (35 words) shows the spec's behaviour "3210", exit 0.  C01_demo_model_image: model_compile returns that image.
-   demo_model_image_opt (XCodegenDemo.v): with opt = true it returns 34 words, which tools/c01.py re-checks against
+   (43 words) shows the spec's behaviour "3210", exit 0.  C01_demo_model_image: model_compile returns that image.
+   demo_model_image_opt (XCodegenDemo.v): with opt = true it returns 42 words, which tools/c01.py re-checks against
    the binary the real xcmp writes for the same source (coq_demo_image_tie), and does the same for generated
    fragment programs (program_model_tie: byte-identical images counted in the evidence). *)
-Theorem C01_program_partial : forall frames : string -> option (Z * Z * Z), C01_full (model_compile frames false).
+Theorem C01_program_partial : forall prm : params, C01_full (model_compile prm false).
 Proof. exact program_correct. Qed.
 Print Assumptions C01_program_partial.
 
@@ -435,24 +493,32 @@ Print Assumptions C01_instr_at_of_decode.
 
 (* the fragment is not empty: the model generates xcmp's code for (g + 3) - 7 with a global g ... *)
 Example C01_fragment_nonvacuous :
-  cg (fun x => if String.eqb x "g" then Some (LGlobal 2) else None) (fun _ => None) 6 4
+  cg (fun x => if String.eqb x "g" then Some (LGlobal 2) else None) (fun _ => None) 6 4 (fun _ => None)
      (EBin Minus (EBin Plus (EVar "g") (ENum 3)) (ENum 7)) RA 0 0
   = Some ([LDAM 2; LDBC 3; ADD; LDBC 7; SUB], 0).
 Proof. vm_compute. reflexivity. Qed.
 
 (* ... the spill scheme for l - (l + 1) with a local l at sp + 5: right operand first, saved at frame offset 1 ... *)
 Example C01_fragment_spill_nonvacuous :
-  cg (fun x => if String.eqb x "l" then Some (LFrame 5) else None) (fun _ => None) 6 4
+  cg (fun x => if String.eqb x "l" then Some (LFrame 5) else None) (fun _ => None) 6 4 (fun _ => None)
      (EBin Minus (EVar "l") (EBin Plus (EVar "l") (ENum 1))) RA 0 1
   = Some ([LDAM 1; LDAI 5; LDBC 1; ADD; LDBM 1; STAI 4; LDAM 1; LDAI 5; LDBM 1; LDBI 4; SUB], 0).
 Proof. vm_compute. reflexivity. Qed.
 
 (* ... and the branches of ~(g < 0) and l with labels 0..3 *)
 Example C01_fragment_branch_nonvacuous :
-  cg (fun x => if String.eqb x "g" then Some (LGlobal 2) else if String.eqb x "l" then Some (LFrame 5) else None) (fun _ => None) 6 4
+  cg (fun x => if String.eqb x "g" then Some (LGlobal 2) else if String.eqb x "l" then Some (LFrame 5) else None) (fun _ => None) 6 4 (fun _ => None)
      (EBin And (EUn Not (EBin Ls (EVar "g") (ENum 0))) (EVar "l")) RA 0 1
   = Some ([LDAM 2; BRN 3; LDAC 0; BR 4; LABEL 3; LDAC 1; LABEL 4; BRZ 1; LDAC 0; BR 2; LABEL 1; LDAC 1; LABEL 2;
            BRZ 0; LDAM 1; LDAI 5; LABEL 0], 5).
+Proof. vm_compute. reflexivity. Qed.
+
+(* ... and subscripts of an array a whose word is data word 3: a constant and a computed index *)
+Example C01_fragment_subscript_nonvacuous :
+  cg (fun x => if String.eqb x "g" then Some (LGlobal 2) else None) (fun _ => None) 6 4
+     (fun x => if String.eqb x "a" then Some (LGlobal 3) else None)
+     (EBin Plus (ESub "a" (ENum 2)) (ESub "a" (EVar "g"))) RA 0 1
+  = Some ([LDAM 2; LDBM 3; ADD; LDAI 0; LDBM 1; STAI 4; LDAM 3; LDAI 2; LDBM 1; LDBI 4; ADD], 0).
 Proof. vm_compute. reflexivity. Qed.
 
 (* Non-vacuity: a program with a global, a function call in an operand and output is well-defined, and the
